@@ -298,6 +298,7 @@ LINES_FAMILIES = {
     # the specified repair of D14 (all same-day SELL lines of a security folded): model-checked only, nothing to replay --
     # with it the legs are the same records as Cgt's for every order of the lines
     'lines_design_q': dict(maxlines=3, alpha='MC_AlphaAll', design=True),
+    'lines_resv_q': dict(minlines=5, maxlines=5, alpha='MC_AlphaResv'),     # same-day reservation next to the other security's purchase
     'lines_t': dict(maxlines=4, alpha='MC_AlphaAll'),
     'lines5_t': dict(maxlines=5, alpha='MC_AlphaCore'),
 }
